@@ -58,7 +58,7 @@ var ruleSchemas = []kindSchema{
 	{"capability", func() aa.Rule { return &aa.Capability{} }, []fieldChoices{
 		{"Qualifier", qualChoices}, {"Names", []any{s(), s("chown"), s("chown", "kill", "sys_admin")}}, {"Comment", commentChoices}}, true},
 	{"network", func() aa.Rule { return &aa.Network{} }, []fieldChoices{
-		{"Qualifier", qualChoices}, {"Domain", []any{"", "inet", "inet6", "netlink"}}, {"Type", []any{"", "stream", "dgram", "raw"}}, {"Protocol", []any{"", "tcp"}}, {"Comment", commentChoices}}, true},
+		{"Qualifier", qualChoices}, {"Domain", []any{"", "inet", "inet6", "netlink", "packet"}}, {"Type", []any{"", "stream", "dgram", "raw"}}, {"Protocol", []any{"", "tcp"}}, {"Comment", commentChoices}}, true},
 	{"mount", func() aa.Rule { return &aa.Mount{} }, []fieldChoices{
 		{"Qualifier", qualChoices}, {"FsType", []any{"", "ext4"}}, {"Options", []any{s(), s("ro"), s("rw", "nosuid")}},
 		{"Source", []any{"", "/dev/sda1", "@{run}/src/"}}, {"MountPoint", []any{"", "/mnt/a/", "@{HOME}/mnt/"}}, {"Comment", commentChoices}}, true},
@@ -333,6 +333,33 @@ func stratifyBy(gen []genRule, perClass int, rng *rand.Rand, coarse bool) []genR
 	return res
 }
 
+// execConflict: two file rules on one path with different exec transitions are not a valid block
+// (the policy language rejects conflicting x modifiers): such a combination is not generated.
+func execConflict(rs aa.Rules, x aa.Rule) bool {
+	mode := func(r aa.Rule) (string, string) {
+		f, ok := r.(*aa.File)
+		if !ok {
+			return "", ""
+		}
+		for _, a := range f.Access {
+			if strings.HasSuffix(a, "x") {
+				return f.Path, a
+			}
+		}
+		return f.Path, ""
+	}
+	px, mx := mode(x)
+	if mx == "" {
+		return false
+	}
+	for _, r := range rs {
+		if p, m := mode(r); m != "" && p == px && m != mx {
+			return true
+		}
+	}
+	return false
+}
+
 func rebuild(g genRule) aa.Rule {
 	r, _ := buildRule(schemaOf(g.Kind), g.Vec)
 	return r
@@ -521,6 +548,10 @@ func checkC09(e *Env, r *Report) {
 		for k := 0; k < n; k++ {
 			g := gen[rng.Intn(len(gen))]
 			if g.Kind == "comment" || g.Kind == "include" {
+				k--
+				continue
+			}
+			if execConflict(rs, rebuild(g)) {
 				k--
 				continue
 			}
@@ -1039,6 +1070,10 @@ func checkC12(e *Env, r *Report) {
 		refs := []string{}
 		for k := 0; k < n; k++ {
 			g := cand[rng.Intn(len(cand))]
+			if execConflict(rs, rebuild(g)) {
+				k--
+				continue
+			}
 			rs = append(rs, rebuild(g))
 		}
 		var text string
